@@ -846,6 +846,9 @@ class DataAccessObject(HasGeneric[T]):
                 # Some bases may not be DAOs or may not have generic info; skip safely
                 continue
         base_kwargs: Dict[str, Any] = {}
+        if base is not None and issubclass(self.original_class(), AlternativeMapping):
+            # this DAO holds a mapping of its own (derived from the ancestor's): its create_from_dao decodes all of it
+            base = None
         if base is not None:
             parent_dao = base()
             parent_mapper = sqlalchemy.inspection.inspect(base)
